@@ -57,7 +57,8 @@ def check(ctx):
         quiet = False
         dv = a.get("disp")
         if dv is not None and not (hasattr(dv, "kind") and dv.kind == "const" and dv.a):
-            quiet = True
+            # a silenced solver is still root-or-exception when the function itself raises on `not converged`
+            quiet = not _raises_unless_converged(f.node)
         ctx.check(
             not quiet, "C06-d", GAS + "z_factor_DAK:solver outcome", f"{f.file}:{ev.line}",
             "the density comes from a bracketing root finder whose contract is root-or-exception (never a bound or a guess)",
@@ -278,6 +279,30 @@ def _validated(fnode):
             if names & {"success", "fun", "converged", "status"}:
                 if any(isinstance(s, ast.Raise) for b in (n.body, n.orelse) for st in b for s in ast.walk(st)):
                     return True
+    return False
+
+
+def _raises_unless_converged(fnode):
+    """A top-level `if not r.converged: ... raise` (or `if r.converged: ... else: ... raise`) that precedes every
+    return of the function: the un-converged outcome of a silenced solver cannot reach the caller."""
+
+    def ends_in_raise(block):
+        return bool(block) and isinstance(block[-1], ast.Raise)
+
+    def conv(e):
+        return isinstance(e, ast.Attribute) and e.attr == "converged"
+
+    for st in fnode.body:
+        if isinstance(st, (ast.FunctionDef, ast.AsyncFunctionDef, ast.ClassDef)):
+            continue
+        if any(isinstance(n, ast.Return) for n in ast.walk(st)):
+            return False
+        if isinstance(st, ast.If):
+            t = st.test
+            if isinstance(t, ast.UnaryOp) and isinstance(t.op, ast.Not) and conv(t.operand) and ends_in_raise(st.body):
+                return True
+            if conv(t) and ends_in_raise(st.orelse):
+                return True
     return False
 
 
